@@ -520,6 +520,31 @@ def rule_cs_accept(cx, rep, port):
             if ends and _delim_follow_test(b_, src, dlm) is not None:
                 return True
         return False
+    # what a field is depends on the line, the delimiter, the mode flags and the position only - not on what earlier fields of the
+    # record were like: a parameter beyond those, tested on some path and fed by the caller from state it carries from field to field
+    known_roles = 6
+    extra = params[known_roles:] if len(params) > known_roles else []
+    tested = {x for q in ps for t_, _ in q.conds for x in names_in(t_) if x in extra}
+    if tested:
+        caller = p.func('csv_utils', 'split_quoted_str')
+        calls_ = [c for c in ast.walk(caller) if isinstance(c, ast.Call) and call_name(c) == 'extract_next_field']
+        carried = None
+        for c in calls_:
+            for prm in sorted(tested):
+                i_ = params.index(prm)
+                arg = c.args[i_] if i_ < len(c.args) else next((k.value for k in c.keywords if k.arg == prm), None)
+                if arg is None:
+                    continue
+                loop = getattr(c, 'parent', None)
+                while loop is not None and not isinstance(loop, (ast.While, ast.For)):
+                    loop = getattr(loop, 'parent', None)
+                if loop is not None and any(isinstance(n_, (ast.Assign, ast.AugAssign)) and any(x.id in names_in(arg) for t_ in (n_.targets if isinstance(n_, ast.Assign) else [n_.target]) for x in ast.walk(t_) if isinstance(x, ast.Name)) for n_ in ast.walk(loop)):
+                    carried = (prm, arg, c)
+        if carried:
+            rep.violated('field independence', carried[2], 'extract_next_field decides differently depending on `{}`, which split_quoted_str feeds with `{}` - a value it updates from field to field: whether a field is taken as quoted then depends on the fields in front of it (a properly quoted field after a defective one is split at its inner delimiters)'.format(carried[0], node_text(carried[1], 40)))
+        else:
+            rep.undecided('field independence', fd, 'extract_next_field tests the additional parameter(s) {}'.format(sorted(tested)))
+        return
     n_acc = n_rej = n_plain = 0
     unesc_ok = preserve_ok = False
     for q in ps:
